@@ -230,5 +230,10 @@ func C06(r *eng.Run) {
 		}
 	})
 	r.Phase("A3 zeros and specials", t0, nil)
+
+	// R: values reached by operation sequences on the real implementation (see reached.go)
+	reachedPhase(r, "R values reached by operation sequences", reachedAll(r), func(w *eng.W, b ref.Bits, v ref.Val) {
+		checkText(w, b, v, true)
+	})
 	r.Require("digits1", "digits34", "digits35", "digit-pair-sweep", "zero-every-exponent", "specials")
 }
